@@ -223,6 +223,16 @@ def run_property(prop, tier, only, nproc, timeout, write_evidence, verbose):
                     reproduced, detail = call_replay(lem, cfg, c['model'])
                 except Exception as x:
                     detail = 'replay driver raised: %s' % traceback.format_exc()[-800:]
+            if not reproduced:
+                # the symbolic run saw the code under check raise an exception the harness did not expect, and the concrete
+                # run on the real package raised an exception of the same type (in the driver or in the re-executed
+                # harness): the crash is real
+                import re as _re
+                ms = _re.match(r'the code under check raised (\w+)', c['msg'])
+                mr = _re.findall(r'(?m)^(\w+(?:\.\w+)*)(?::|$)', str(detail).strip().splitlines()[-1]) if ('raised' in str(detail) and str(detail).strip()) else []
+                if ms and mr and mr[0].split('.')[-1] == ms.group(1):
+                    reproduced = True
+                    detail = 'the real package raises the same %s on these inputs: %s' % (ms.group(1), str(detail).strip().splitlines()[-1][:200])
             rec['replay_detail'] = detail
             if reproduced:
                 d = os.path.join(os.environ.get('SX_REPLAY_DIR') or os.path.join(VERIF, 'replays'), prop)
